@@ -265,7 +265,65 @@ def bounded_sweep(repo, con, registry, tier, seed):
                     stats["failures"].append((bad, rep))
                     if len(stats["failures"]) >= 3:
                         return stats
+                    continue
+                h = history_probe(repo, con, vi, variant, m, registry, rng)
+                if h is not None:
+                    stats["history_probes"] = stats.get("history_probes", 0) + 1
+                    if h:
+                        stats["failures"].append((["history"], h))
+                        return stats
     return stats
+
+
+def history_probe(repo, con, vi, variant, m, registry, rng, edge=None):
+    """No hidden state (bounded): a pure function of a mixed graph called, then called again after the caller added an edge to the
+    same graph object, must answer as it does on a freshly built graph with that edge.  None = not applicable to this input,
+    {} = agrees, otherwise a replay payload."""
+    if getattr(con, "frame", "pure") != "pure":
+        return None
+    gps = [p for p, k in variant.items() if k == "graph" and p in m]
+    if len(gps) != 1:
+        return None
+    gp = gps[0]
+    g = m[gp]
+    nodes = list(g["nodes"])
+    have = {tuple(e) for e in g["directed"]}
+    cands = [(i, j) for i in nodes for j in nodes if i != j and (i, j) not in have and (j, i) not in have]
+    if not cands and edge is None:
+        return None
+    e = tuple(edge) if edge is not None else rng.choice(cands)
+    m2 = json.loads(json.dumps(m))
+    m2[gp]["directed"] = [list(x) for x in g["directed"]] + [list(e)]
+    m2 = main_fix(m2)
+    try:
+        fresh = replay_model(repo, con, vi, m2, registry)
+    except Exception:
+        return None
+    if not fresh["contract"]["pre"]:
+        return None
+    world = concrete.World(m["k"], m.get("order"), m.get("interventions", ()))
+    data = {p: m[p] for p in variant if p in m}
+    try:
+        first, second = concrete.call_real_history(con.qual, world, variant, data, gp, e)
+    except Exception:
+        return None
+    got = [second[0], _show(second[1])]
+    want = fresh["outcome"][:2]
+    if json.dumps(got, sort_keys=True, default=str) == json.dumps(want, sort_keys=True, default=str):
+        return {}
+    if second[0] == "return" and fresh["outcome"][0] == "return":
+        # order-insensitive comparison for unordered results is already done by _show (sorted); a remaining difference is real
+        pass
+    return {"function": con.qual, "history": {"variant_index": vi, "model": m, "edge_added_in_place": list(e)},
+            "inputs": fresh["inputs"], "first_call": [first[0], _show(first[1])],
+            "second_call_on_same_object": got, "call_on_fresh_graph": want,
+            "contract": {"pre": True, "clauses": {"history": False}, "raise_allowed": None, "must_raise": {}},
+            "outcome": got}
+
+
+def main_fix(model):
+    from .main import _fix
+    return _fix(model)
 
 
 def exhaustive_inputs(con, variant, n, cap, rng):
@@ -346,6 +404,15 @@ def _fb_eval(job):
     if rep["outcome"][0] == "raise" and ev["raise_allowed"] is False:
         bad.append("raise." + rep["outcome"][1])
     bad += ["must-raise." + e for e, v in ev["must_raise"].items() if v is False]
+    if not bad:
+        import hashlib
+        hsh = int(hashlib.sha256(json.dumps(m, sort_keys=True, default=str).encode()).hexdigest(), 16)
+        if hsh % 8 == 0:      # one input in eight also goes through the history probe (no hidden state)
+            h = history_probe(repo, con, vi, con.variants()[vi], m, registry, random.Random(hsh))
+            if h:
+                return ("bad", ["history"], h)
+            if h is not None:
+                return ("ok", "history", None)
     return ("bad", bad, rep) if bad else ("ok", None, None)
 
 
@@ -370,6 +437,8 @@ def fallback_sweep(repo, con, registry, tier, seed):
         for kind, bad, rep in pool.imap_unordered(_fb_eval, jobs, chunksize=32):
             if kind == "ok":
                 stats["evaluations"] += 1
+                if bad == "history":
+                    stats["history_probes"] = stats.get("history_probes", 0) + 1
             elif kind == "pre":
                 stats["pre_false"] += 1
             elif kind == "error":
@@ -377,7 +446,7 @@ def fallback_sweep(repo, con, registry, tier, seed):
             else:
                 stats["evaluations"] += 1
                 stats["failures"].append((bad, rep))
-    stats["failures"].sort(key=lambda f: (f[1]["model"]["k"], len(json.dumps(f[1]["inputs"]))))
+    stats["failures"].sort(key=lambda f: ((f[1].get("model") or f[1]["history"]["model"])["k"], len(json.dumps(f[1]["inputs"]))))
     return stats
 
 
@@ -739,7 +808,8 @@ def run(pid, tier, seed, extra=None):
                 rep.errors.append(f"bounded sweep {con.qual}: " + traceback.format_exc())
                 continue
             rep.bounded.append({"function": con.qual, "evaluations": st["evaluations"], "pre_false": st["pre_false"],
-                                "failures": len(st["failures"]), "errors": st.get("errors", [])[:2]})
+                                "failures": len(st["failures"]), "errors": st.get("errors", [])[:2],
+                                **({"history_probes": st["history_probes"]} if st.get("history_probes") else {})})
             if st.get("errors"):
                 rep.errors.append(f"bounded evaluation of {con.qual} failed on {len(st['errors'])} inputs: {st['errors'][0]}")
             if st["evaluations"] == 0:
